@@ -38,7 +38,8 @@ RULE = ("next: lists of 1-3 specifications generated from the documented grammar
         "the DST days of America/Los_Angeles; every answer t is re-queried at t-1us (same answer) and at t (a later one); "
         "parse: every date/time/offset form through parse_date_time with day offsets -1..2; ha: 1-3 specifications per function "
         "running on the virtual clock (strictly increasing dt_now) under legacy and new subsystem, run instants and trigger_time "
-        "against the successor chain, startup / shutdown entries on definition / removal; dst: 4-6 single-specification functions "
+        "against the successor chain; a third of the functions have only startup / shutdown entries (or no argument list), another "
+        "fifth has the two words anywhere between the specifications - the runs at definition / removal are judged like instants; dst: 4-6 single-specification functions "
         "(daily and hourly cron, once(h:m[:s]), period with dated / time-only start, intervals 90 min - 1 d) started the day before "
         "the fall-back / spring-forward night and run for 50-62 h of real time under both subsystems.  Non-trivial: every case has at least "
         "one specification; distinct by payload.")
@@ -484,14 +485,47 @@ def gen_ha(rng, n_scen):
             at_start = any(s["kind"] == "once" and s["d"] == ["now", None] for s in specs)
             # ("startup" is documented as equivalent to once(now); the two subsystems disagree on whether both together give
             #  one run or two, which the property does not settle - the combination is not generated)
-            funcs.append({"specs": specs, "startup": rng.random() < 0.35 and not at_start, "shutdown": rng.random() < 0.35,
-                          "style": rng.randrange(1024)})
+            f = {"specs": specs, "startup": rng.random() < 0.35 and not at_start, "shutdown": rng.random() < 0.35,
+                 "style": rng.randrange(1024)}
+            r = rng.random()
+            if r < 0.3:
+                # only "startup" / "shutdown" entries, or no argument list at all: the runs at definition / removal are part of
+                # "exactly the instants the specification denotes" (a decorator naming only "shutdown" must not run at definition)
+                f["specs"] = []
+                f["argv"] = rng.choice([None, ["startup"], ["shutdown"], ["shutdown"], ["startup", "shutdown"], ["shutdown", "startup"],
+                                        ["shutdown", "shutdown"], ["startup", "startup", "shutdown"]])
+            elif r < 0.5 and not at_start:
+                # the two words anywhere between the time specifications, possibly repeated
+                argv = list(range(len(specs)))
+                for w in rng.choice([["startup"], ["shutdown"], ["shutdown", "startup"], ["shutdown", "shutdown"], ["startup", "shutdown"]]):
+                    argv.insert(rng.randrange(len(argv) + 1), w)
+                f["argv"] = argv
+            if "argv" in f:
+                f["startup"] = f["argv"] is None or "startup" in f["argv"]
+                f["shutdown"] = f["argv"] is not None and "shutdown" in f["argv"]
+            funcs.append(f)
         scen = {"id": sc_i, "horizon": horizon, "funcs": funcs}
         for legacy in (True, False):
             for fi in range(len(funcs)):
                 cases.append(Case({"kind": "ha", "legacy": legacy, "scen": scen, "fi": fi}, None,
                                   tags=("ha", "legacy" if legacy else "new")))
     return cases
+
+
+def ha_corpus():
+    """always run: functions whose decorator names only "startup" / "shutdown" (seeded change C06_3 made a shutdown-only
+    function run at definition as well), the bare decorator, and "shutdown" next to a time specification"""
+    once = {"kind": "once", "d": ["at", "none", ["hms", 12, 0, 5000000], None]}
+    funcs = [{"specs": [], "argv": None}, {"specs": [], "argv": ["startup"]}, {"specs": [], "argv": ["shutdown"]},
+             {"specs": [], "argv": ["startup", "shutdown"]}, {"specs": [once], "argv": ["shutdown", 0]},
+             {"specs": [once], "argv": [0, "startup"]}]
+    for f in funcs:
+        f["style"] = 0
+        f["startup"] = f["argv"] is None or "startup" in f["argv"]
+        f["shutdown"] = f["argv"] is not None and "shutdown" in f["argv"]
+    scen = {"id": "corpus-markers", "horizon": 20, "funcs": funcs}
+    return [Case({"kind": "ha", "legacy": legacy, "scen": scen, "fi": fi}, None, tags=("ha", "corpus", "legacy" if legacy else "new"))
+            for legacy in (True, False) for fi in range(len(funcs))]
 
 
 def _rel(rng, t):
@@ -517,7 +551,7 @@ def _near(rng, t, period=False):
 
 def gen_cases(rng, tier, search):
     k = {"quick": 1, "thorough": 8}[tier] * (3 if search else 1)
-    return corpus_cases() + dst_corpus() + gen_next(rng, 420 * k) + gen_parse(rng, 300 * k) + gen_ha(rng, 8 * k) + gen_dst(rng, 6 * k)
+    return corpus_cases() + dst_corpus() + ha_corpus() + gen_next(rng, 420 * k) + gen_parse(rng, 300 * k) + gen_ha(rng, 8 * k) + gen_dst(rng, 6 * k)
 
 
 # ------------------------------------------------------------------------------------------------ running the real code
@@ -587,15 +621,22 @@ def _run_direct(cases):
         loop.close()
 
 
+def argv_of(f):
+    """the decorator's argument list: "startup" / "shutdown" / index of a time specification; None = bare @time_trigger"""
+    if "argv" in f:
+        return f["argv"]
+    return (["startup"] if f["startup"] else []) + list(range(len(f["specs"]))) + (["shutdown"] if f["shutdown"] else [])
+
+
 def ha_script(scen):
     lines = ["def tt(kw):", "    t = kw.get('trigger_time')", "    return t if isinstance(t, str) else str(t)", ""]
     for fi, f in enumerate(scen["funcs"]):
-        args = [json.dumps(render_tspec(s, f["style"])) for s in f["specs"]]
-        if f["startup"]:
-            args.insert(0, '"startup"')
-        if f["shutdown"]:
-            args.append('"shutdown"')
-        lines += ["@time_trigger(" + ", ".join(args) + ")", f"def f{fi}(**kw):", f"    rec('run', {fi}, tt(kw), kw.get('trigger_type'))", ""]
+        argv = argv_of(f)
+        if argv is None:
+            dec = "@time_trigger"
+        else:
+            dec = "@time_trigger(" + ", ".join(json.dumps(a if isinstance(a, str) else render_tspec(f["specs"][a], f["style"])) for a in argv) + ")"
+        lines += [dec, f"def f{fi}(**kw):", f"    rec('run', {fi}, tt(kw), kw.get('trigger_type'))", ""]
     return "\n".join(lines) + "\n"
 
 
@@ -970,11 +1011,16 @@ def make_line(c):
                 tabs.cron_chain(cron_ids[s["expr"]], s["expr"], e, 2)
                 tabs.cron_chain(cron_ids[s["expr"]], s["expr"], e + US, 2)
     body = [str(us_of(t)) for t in exp]
-    p["_oracle"] = " ".join((["startup"] if f["startup"] or not f["specs"] else []) + body + (["shutdown"] if f["shutdown"] else []))
+    argv = argv_of(f)
+    # the property: one run at definition iff there is a "startup" entry or no argument at all, one at removal iff there is a
+    # "shutdown" entry, and in between one run per denoted instant
+    want_su = argv is None or "startup" in argv
+    want_sd = argv is not None and "shutdown" in argv
+    p["_oracle"] = " ".join((["startup"] if want_su else []) + body + (["shutdown"] if want_sd else []))
     p["_n"] = len(exp)
-    p["_wrap"] = [f["startup"], f["shutdown"]]
     hor = us_of(BASE) + int(scen["horizon"] * 1000000)
-    return "C06 " + sx(["chain", specs, us_of(BASE), len(exp) + 3, hor, f["startup"], f["shutdown"]] + tab_sx(tabs))
+    targs = "bare" if argv is None else [a if isinstance(a, str) else specs[a] for a in argv]
+    return "C06 " + sx(["chain", "legacy" if p["legacy"] else "new", targs, us_of(BASE), len(exp) + 3, hor] + tab_sx(tabs))
 
 
 # ------------------------------------------------------------------------------------------------ verdict
@@ -1129,6 +1175,10 @@ def extra_coverage(cases):
             cov["ha_runs_checked"] += len((c.impl or "").split())
             f = p["scen"]["funcs"][p["fi"]]
             cov["startup_shutdown_functions"] += int(f["startup"] or f["shutdown"])
+            if not f["specs"]:
+                key = "bare" if argv_of(f) is None else ",".join(argv_of(f))
+                cov.setdefault("marker_only_functions", {})
+                cov["marker_only_functions"][key] = cov["marker_only_functions"].get(key, 0) + 1
             continue
         if p["kind"] != "next":
             continue
